@@ -15,6 +15,10 @@ from .algebra import Poly
 from .values import (ANY, COLS, D0, NOCONST, TOP, D, Val, dim_collapse, dim_contract, dim_div, dim_inv,
                      dim_known, dim_mul, dim_pow, dim_unify, join_vals, vconst)
 
+# reductions: the batch axis survives only when an explicit axis is named (decided by the caller of the rule)
+REDUCING = {"sum", "mean", "max", "min", "amax", "amin", "all", "any", "norm", "prod", "nansum", "median", "dot", "inner",
+            "einsum", "tensordot", "vdot", "det", "trace", "count_nonzero"}
+
 ALIASES = {
     "np": "numpy",
     "numpy.linalg.linalg": "numpy.linalg",
@@ -476,6 +480,8 @@ def call_ext(interp, ext, node, args, kwargs, st):
                 interp.emit(st, "squeeze", node, target=a0, axis=_arg(args, kwargs, 1, "axis"))
             if name == "diag":
                 interp.emit(st, "diag", node, arg=a0)
+            if name in ("roll", "sort", "unique", "flip"):
+                interp.emit(st, "reorder", node, fn=name, target=a0)
             if name == "roll":
                 sh = _arg(args, kwargs, 1, "shift")
                 tags = frozenset([("roll", sh.const if sh is not None and sh.has_const() else None)])
@@ -518,11 +524,12 @@ def call_ext(interp, ext, node, args, kwargs, st):
             kind = "float" if (ax is None and name != "amin") else "arr"
             if ax is not None:
                 kind = "arr"
+            keep_batch = frozenset(["batch"]) if ("batch" in a0.tags and ax is not None) else frozenset()
             sym = None
             if name == "sum" and ax is None and a0.sym is not None and a0.sym.is_monomial() and len(a0.sym.atoms()) == 1 \
                     and next(iter(a0.sym.atoms())).startswith("norm<") and "norm" in a0.tags:
                 sym = Poly.atom("sum<" + next(iter(a0.sym.atoms())) + ">")
-            return fresh(dim, kind=kind, tags=frozenset([("reduced", name)]), sym=sym)
+            return fresh(dim, kind=kind, tags=frozenset([("reduced", name)]) | keep_batch, sym=sym)
         if name in DIMLESS_ARG:
             if a0 is not None:
                 d = dim_collapse(a0.dim)
@@ -544,6 +551,8 @@ def call_ext(interp, ext, node, args, kwargs, st):
             d, c = dim_unify(args[0].dim if args else ANY, args[1].dim if len(args) > 1 else ANY)
             return fresh(d if d != ANY else D0)
         if name in INDEXY:
+            if name in ("argsort", "lexsort") and a0 is not None:
+                interp.emit(st, "reorder", node, fn=name, target=a0)
             tags = frozenset(["perm"]) if name in ("argsort", "lexsort") else frozenset()
             return fresh(D0, kind="idx", tags=tags | frozenset(["1d"]) if name in ("lexsort",) else tags)
         if name in LOGICAL:
@@ -551,6 +560,8 @@ def call_ext(interp, ext, node, args, kwargs, st):
                 interp.emit(st, "reduce", node, fn=name, target=a0, axis=_reduce_axis_kw(args, kwargs), method=False)
             k = "bool" if (name in ("all", "any") and _reduce_axis_kw(args, kwargs) is None) else "arr"
             out = fresh(D0, kind=k)
+            if a0 is not None and "batch" in a0.tags and (name not in ("all", "any") or _reduce_axis_kw(args, kwargs) is not None):
+                out.tags = out.tags | {"batch"}
             out.extra = ("logical", name, list(args))
             return out
         if name in ("isclose", "allclose"):
@@ -578,6 +589,8 @@ def call_ext(interp, ext, node, args, kwargs, st):
             if name == "cross":
                 tags = frozenset(["cross"])
             sym = a0.sym * b.sym if (name in ("multiply", "dot") and a0 is not None and a0.sym is not None and b.sym is not None) else None
+            if (a0 is not None and "batch" in a0.tags) or "batch" in b.tags:
+                tags = tags | {"batch"}
             return fresh(d, tags=tags, sym=sym, kind="float" if sym is not None else "arr")
         if name in ("divide", "true_divide"):
             b = args[1] if len(args) > 1 else Val()
@@ -682,7 +695,8 @@ def call_ext(interp, ext, node, args, kwargs, st):
             sym = None
             if a0.deps:
                 sym = _opaque("norm", a0)
-            return fresh(d, kind="float" if ax is None else "arr", tags=frozenset(["norm"]), sym=sym)
+            nt = frozenset(["norm"]) | (frozenset(["batch"]) if ("batch" in a0.tags and ax is not None) else frozenset())
+            return fresh(d, kind="float" if ax is None else "arr", tags=nt, sym=sym)
         if name == "det":
             d = dim_collapse(a0.dim)
             interp.emit(st, "det", node, target=a0)
